@@ -56,7 +56,7 @@ def canon_triplets(res):
     for t in res:
         i, j, d = t
         d = float(d)
-        if d == int(d):
+        if d == d and abs(d) != float("inf") and d == int(d):
             d = int(d)
         out.append((int(i), int(j), d))
     out.sort()
